@@ -481,6 +481,7 @@ class Runner:
             rec[2] = True
             return
         neg = z3.Not(zc)
+        ctx.activate(zc)
         try:
             sat = ctx.check(neg)
         except S.Unsupported:
